@@ -235,7 +235,7 @@ func (c *Ctx) parseContracts(p *packages.Package) error {
 						g.Fields[strings.TrimSpace(f)] = true
 					}
 					c.guards[p.PkgPath] = append(c.guards[p.PkgPath], g)
-				case "shared_types", "startup_funcs", "shared_globals":
+				case "shared_types", "startup_funcs", "shared_globals", "reviewed_globals":
 					sd := c.shared[p.PkgPath]
 					if sd == nil {
 						sd = &SharedDecl{Types: map[string]bool{}, Startup: map[string]bool{}}
@@ -251,6 +251,12 @@ func (c *Ctx) parseContracts(p *packages.Package) error {
 							sd.Types[n] = true
 						case "startup_funcs":
 							sd.Startup[n] = true
+						case "reviewed_globals":
+							// package-level variables whose address may be handed to calls while serving
+							if sd.Reviewed == nil {
+								sd.Reviewed = map[string]bool{}
+							}
+							sd.Reviewed[n] = true
 						}
 					}
 					if kw == "shared_globals" {
